@@ -76,7 +76,8 @@ def compare_api(api, py):
 class C17:
     id = "C17"
     cases = {"quick": 1500, "thorough": 40000}
-    rule = ("API-shaped programs: 1-3 functions (0-3 parameters, trailing defaults, vararg), 0-2 interfaces, 1-3 classes with "
+    rule = ("API-shaped programs: 1-3 functions (0-3 parameters, trailing defaults, vararg), 0-2 interfaces, body-less types that name a "
+            "parent interface, 1-3 classes with "
             "and without class arguments (def-marked or plain), a parent with arguments passed through, a second parent, an "
             "implemented interface, 0-5 members (fields, methods with self / fin self, operator definitions + - * / // ^ mod = > <) "
             "in random order, definitions in random order; both annotate settings. Oracle: from the model, the expected list of "
